@@ -19,12 +19,19 @@ Inductive case :=
 | KRedact (h : heap) (live : value) (view live_after : tree) (view_pw : list Z)
           (json_same shared : bool) (leaks : list Z)
   (* dumpRequest(req) = out; secrets = the values sent in headers whose name, case-folded, is in the
-     redaction set *)
+     redaction set. r carries the body reader: the bytes it delivers and how the stream ends *)
 | KDump (r : request) (out : list Z) (secrets : list (list Z))
+  (* the real handlerLogger{inner, capturing logger}.ServeHTTP(w, req) with req.RemoteAddr = addr:
+     first = the first message written to the logger, all = every message written (any level) *)
+| KLog (r : request) (addr : list Z) (first : list Z) (all : list (list Z)) (secrets : list (list Z))
   (* textproto.CanonicalMIMEHeaderKey(raw) = out *)
 | KCanon (raw out : list Z).
 
 Definition depth : nat := 12.
+
+(* long generated bodies are shipped run-length encoded: rp n u = u repeated n times *)
+Fixpoint rp_nat (n : nat) (u : list Z) : list Z := match n with O => [] | S k => u ++ rp_nat k u end.
+Definition rp (n : Z) (u : list Z) : list Z := rp_nat (Z.to_nat n) u.
 
 Fixpoint tree_eqb (a b : tree) {struct a} : bool :=
   let fix all2 (l : list tree) (m : list tree) {struct l} : bool :=
@@ -62,6 +69,7 @@ Definition mismatch (c : case) : bool :=
       | None => true
       end
   | KDump r out secrets => negb (beq (dump r) out)
+  | KLog r addr first all secrets => negb (beq (log_request addr r) first && (length all =? 2)%nat)
   | KCanon raw out => negb (beq (canon_key raw) out)
   end.
 
@@ -74,5 +82,6 @@ Definition spec_fail (c : case) : bool :=
       || negb (tree_eqb (tree_of depth h live) live_after)
       || negb (match leaks with [] => true | _ => false end)
   | KDump r out secrets => existsb (fun s => contains s out) secrets
+  | KLog r addr first all secrets => existsb (fun s => existsb (contains s) all) secrets
   | KCanon _ _ => false
   end.
